@@ -145,7 +145,23 @@ def gen_realbias(r, c):
     (bypasses by default; with the user's setting on/off)"""
     c["tsf"], c["same"], c["sub"], c["damping"] = 1, 0, 0, 0.0
     c["lower"], c["upper"], c["rlo"], c["rup"], c["per"] = 0.0, 2.0, 0, 0, 0
-    kind = r.choice(["harmonic", "linear", "harmonicWalls", "harmonicWalls", "harmonicWalls"])
+    kind = r.choice(["harmonic", "linear", "harmonicWalls", "harmonicWalls", "harmonicWalls", "abf", "metadynamics", "abmd", "opes_metad", "histogram", "alb"])
+    generic = {"abf": ["fullSamples 2", "historyFreq 0"], "metadynamics": ["hillWeight 0.5", "hillWidth 1.0", "newHillFrequency 2"],
+               "abmd": ["forceConstant 2.0", "stoppingValue 1.75"], "opes_metad": ["barrier 5", "newHillFrequency 2", "gaussianSigma 0.2"], "histogram": [],
+               "alb": ["centers 1.0", "updateFrequency 4"]}
+    if kind in generic:
+        # the force is read from the bias object itself (its physics belongs to other properties); what is checked is its routing
+        c["biases"] = [{"kw": kind, "k": 0.0, "user": None, "generic": True, "body": generic[kind]}]
+        c["lower"], c["upper"] = 0.0, 2.0
+        x = V.dyadic(r, 0.5, 1.5, bits=6)
+        ev = []
+        for t in range(r.randint(12, 24)):
+            if t > 0 and r.random() < 0.8:
+                x = min(1.9, max(0.1, x + V.dyadic(r, -0.25, 0.25, bits=6)))
+            ev.append({"boundary": 0, "running": 1, "x": x, "fb": 0.0, "fba": 0.0})
+        c["events"] = ev
+        c["gauss"] = [0.0]
+        return c
     k = r.choice([0.5, 1.0, 2.0])
     b = {"kw": kind, "k": k, "user": None}
     if kind == "harmonic":
@@ -194,9 +210,20 @@ def fill_real_forces(c, recs, table):
     for e, rec in zip(c["events"], recs):
         if rec is None:
             return False
-        F = bias_force(c, b, bypass, rec["x_rep"], e["x"])
+        bf = [t_ for t_ in rec.get("bf", []) if t_[0] == b["kw"].lower()]
+        if len(bf) != 1 or bool(bf[0][2]) != bypass:
+            c["bf_problem"] = "bias object reports %r, the table/user setting gives bypass=%r" % (bf, bypass)
+            return False
+        if b.get("generic"):
+            F = bf[0][1]
+        else:
+            F = bias_force(c, b, bypass, rec["x_rep"], e["x"])
+            if not close(F, bf[0][1]):
+                c["bf_problem"] = "documented force %r on the value the bias must see, the bias computed %r" % (F, bf[0][1])
+                return False
         e["fb"], e["fba"] = (0.0, F) if bypass else (F, 0.0)
     c["bypass"] = bypass
+    c["nonzero_bias_force"] = any(e_["fb"] != 0.0 or e_["fba"] != 0.0 for e_ in c["events"])
     return True
 
 
@@ -340,6 +367,11 @@ def parse_impl(out):
                 res[cur][1].append(rec)
             except ValueError:
                 res[cur][1].append(None)
+        elif w[0] == "BF" and len(w) == 4 and res[cur][1] and res[cur][1][-1] is not None:
+            try:
+                res[cur][1][-1].setdefault("bf", []).append((w[1], float.fromhex(w[2]), int(w[3])))
+            except ValueError:
+                pass
     return res
 
 
@@ -873,7 +905,7 @@ def check(run):
     if st is None:
         return
     model, exes = st
-    sim = exes["c17sim"]
+    sim = os.environ.get("VERIF_C17_SIM", exes["c17sim"])    # (coverage measurements: an instrumented build of the same harness)
     d = V.scratch("C17")
     # documented: only harmonicWalls and histogram implement bypassExtendedLagrangian, harmonicWalls enables it by default
     documented = {"harmonicwalls": (1, 1), "histogram": (1, 0)}
@@ -918,7 +950,9 @@ def check(run):
             ok_, recs_ = impl.get(tag, (False, []))
             if ok_ and len(recs_) == len(c["events"]) and fill_real_forces(c, recs_, table):
                 jobs[n_] = (tag, c, L, model_line(c), fe)
-                run.dist("real-bias:%s:%s" % (c["biases"][0]["kw"], "bypass" if c["bypass"] else "on-coordinate"))
+                run.dist("real-bias:%s:%s%s" % (c["biases"][0]["kw"], "bypass" if c["bypass"] else "on-coordinate", "" if c["nonzero_bias_force"] else ":zero-force"))
+            elif c.get("bf_problem"):
+                run.violation("routing:bias-flag-or-force", "bias %s on an extended variable: %s" % (c["biases"][0]["kw"], c["bf_problem"]), {"kind": "scenario", "scenario": L})
     rc, mout, e = V.run_lines(model, [ml for (tag, c, L, ml, fe) in jobs])
     allrecs = {}
     amps = {}
